@@ -178,6 +178,19 @@ def run(ctx):
             one_data(ctx, M, name, None, G.rand_bytes(rng, s), sg, label + '.boundary')
             one_interest(ctx, M, name, dict(can_be_prefix=False, must_be_fresh=False, nonce=None, lifetime=4000,
                                             hop_limit=None, forwarding_hint=[]), G.rand_bytes(rng, s), sg, label + '.boundary')
+    # signatures shorter than reserved exactly where the OUTER length crosses 253 / 65536 (post-signing repair
+    # has to re-encode the Length in a shorter form and move the Type)
+    for (res, act) in [(72, 70), (72, 71), (10, 3), (252, 0)]:
+        sg = P.Synthetic(res, act)
+        name = [G.tlv(8, b'b')]
+        for boundary in (253, 65536):
+            base = len(bytes(__import__('ndn.encoding', fromlist=['make_data']).make_data(name, None, b'', sg)))
+            # outer value length with the RESERVED size = base - header + content (+ content TL growth); sweep around it
+            for delta in range(-3, min(res - act, ctx.n(5, 300)) + 3):
+                clen = max(0, boundary - base + delta + (2 if boundary == 253 else 6))
+                one_data(ctx, M, name, None, G.rand_bytes(rng, clen), sg, 'synthetic.boundary')
+                one_interest(ctx, M, name, dict(can_be_prefix=False, must_be_fresh=False, nonce=None, lifetime=None,
+                                                hop_limit=None, forwarding_hint=[]), G.rand_bytes(rng, max(0, clen - 40)), sg, 'synthetic.boundary')
     # a long name crossing 252/253
     for ncomp in (40, 41, 42, 43, 60):
         name = [G.tlv(8, b'abcd')] * ncomp
